@@ -220,8 +220,8 @@ def run_multiprocess_case(case, check_contract, seeds_alphabet=(0, 1, 2)):
         if k not in seen:
             seen.add(k)
             out.append(v)
-    return {"key": ["mp", prog["ops"], case["typing"]], "evaluations": nstates,
-            "keys": [["mp", T.tkey(prog["ops"]), case["typing"], i] for i in range(nstates)],
+    return {"key": None, "evaluations": nstates,
+            "keys": [["mp", T.tkey(prog["ranks"]), case["typing"], i] for i in range(nstates)],
             "nontrivial": True, "outcome": "ok" if not out else "violation", "violations": out[:8],
             "states": nstates, "transitions": ntrans, "traces": nstates,
             "counters": {**{"mp_" + k: v for k, v in outcomes.items()}, "multiprocess_seed_assignments": nstates},
